@@ -20,6 +20,23 @@ func uniqueMtime() int64 {
 	return 1500000000000000000 + ((n*2654435761)%(1<<31))*1000 + n%1000
 }
 
+// touchedMtime is the mtime of an entry after an edit: every other time it stays within the
+// same wall-clock second as the old one and differs in the nanosecond part only (by one
+// nanosecond every sixth time), so that a comparison at a coarser grain than the wire carries
+// sees "unchanged".  Takes exactly one tick of the counter, like uniqueMtime.
+func touchedMtime(old int64) int64 {
+	n := atomic.AddInt64(&mtimeCounter, 1)
+	if n%2 == 1 || old <= 0 {
+		return 1500000000000000000 + ((n*2654435761)%(1<<31))*1000 + n%1000
+	}
+	sec, ns := old-old%1000000000, old%1000000000
+	d := 1 + (n*7919)%999999998
+	if n%6 == 0 {
+		d = 1
+	}
+	return sec + (ns+d)%1000000000
+}
+
 func fileData(seed int64, size int) []byte {
 	b := make([]byte, size)
 	r := rand.New(rand.NewSource(seed*2654435761 + int64(size)))
@@ -211,7 +228,7 @@ func mutateTree(r *rand.Rand, src model.Tree, o genOpts, steps, forceI, forceOp 
 				e.DSeed = r.Int63()
 				e.Data = fileData(e.DSeed, int(e.Size))
 				e.Content = model.ContentID(e.Data)
-				e.Mtime = uniqueMtime()
+				e.Mtime = touchedMtime(e.Mtime)
 				ops = append(ops, "rewriteSame")
 			}
 		case 1: // rewrite, other size
@@ -222,7 +239,7 @@ func mutateTree(r *rand.Rand, src model.Tree, o genOpts, steps, forceI, forceOp 
 			}
 		case 2: // touch
 			if !ingroup {
-				e.Mtime = uniqueMtime()
+				e.Mtime = touchedMtime(e.Mtime)
 				ops = append(ops, "touch:"+e.Type)
 			}
 		case 3: // chmod
